@@ -4,7 +4,7 @@ import pk, src
 from common import jhash, first_diff
 from pkgrun import *
 
-PROF = profile(tokens=True, stray_inline=True, p_block_misc=0.12, p_no_r_ns=0.12, p_drawing=0.1, p_text=0.5, run_items=(0, 4), inlines=(0, 5), p_link=0.1, p_bookmark=0.1, p_textbox=0.06,
+PROF = profile(p_strict=0.12, tokens=True, stray_inline=True, p_block_misc=0.12, p_no_r_ns=0.12, p_drawing=0.1, p_text=0.5, run_items=(0, 4), inlines=(0, 5), p_link=0.1, p_bookmark=0.1, p_textbox=0.06,
                p_table=0.22, dangling=True)
 RULE = ('packages from the "inline-rich" profile: every w:t / m:t carries a unique token, runs are split arbitrarily and interleaved '
         'with non-content markup, links, notes, forms, pictures, text boxes, tables with merged cells; html off, both settings of '
@@ -46,7 +46,7 @@ def check_part(ctx, case, outpars, srcpars, dup, features, mult=None, roots=None
             elif src.ptag(x) == 'wp:docPr' and x.get('descr') is not None and '<' not in x.get('descr'): want_atoms.append(('alt', x.get('descr')))
         got_atoms = [('t', m.group(1)) if m.group(1) else ('alt', m.group(2)) for m in ATOM.finditer(outpars[i])]
         clean = not any(src.ptag(x) == 'wp:docPr' and '<' in (x.get('descr') or '') for x in p.own)      # a description with '<' cannot be delimited
-        if clean and not p.loose and got_atoms != want_atoms and any(k == 'alt' for k, _ in want_atoms):
+        if clean and not p.link_nested and got_atoms != want_atoms and any(k == 'alt' for k, _ in want_atoms):
             ctx.fail('text and picture stand-ins of a paragraph are not in document order', case, {'paragraph': p.k, 'part': p.part, 'expected_order': want_atoms, 'output_paragraph': outpars[i]}, features=features); bad = True; continue
         # every text node in full (also whitespace-only ones), in order
         pos = 0
